@@ -557,6 +557,61 @@ fn c06_dual_connector_mapping() {
     core::mem::forget(conn);
 }
 
+//@ c06_dual_connector_mapping_shared {"desc":"DualConnector::map_connection_ids when several ids share a matrix class and the renumbering of the classes (order of first occurrence after the permutation) moves a shared class: every id of the class must follow","bounds":"4 right ids x 4 left ids, 3x3 class matrix, every class used, 3-cycles on both sides","symbolic":"class maps (onto), matrix cells, raw rows","functions":["DualConnector::map_connection_ids","MatrixConnector::map_connection_ids","DualConnector::cost"],"unwind":10,"fs":2048,"timeout":1800,"mem_gb":16,"stubs":["alloc::fmt::format"]}
+#[cfg(kani)]
+#[kani::proof]
+#[kani::stub(alloc::fmt::format, stub_format)]
+fn c06_dual_connector_mapping_shared() {
+    let m0 = sym_matrix(3, 3);
+    // class maps as the builder produces them: id 0 is class 0, every class is used
+    let rmap_c = [0u16, any_below_u16(3), any_below_u16(3), any_below_u16(3)];
+    let lmap_c = [0u16, any_below_u16(3), any_below_u16(3), any_below_u16(3)];
+    kani::assume((rmap_c[1] == 1 || rmap_c[2] == 1 || rmap_c[3] == 1) && (rmap_c[1] == 2 || rmap_c[2] == 2 || rmap_c[3] == 2));
+    kani::assume((lmap_c[1] == 1 || lmap_c[2] == 1 || lmap_c[3] == 1) && (lmap_c[1] == 2 || lmap_c[2] == 2 || lmap_c[3] == 2));
+    let mut rr = [[U31::default(); 8]; 4];
+    let mut lr = [[U31::default(); 8]; 4];
+    let mut rv = Vec::with_capacity(4);
+    let mut lv = Vec::with_capacity(4);
+    for i in 0..4 {
+        let (a, x) = sym_block();
+        rr[i] = a;
+        rv.push(x);
+        let (b, y) = sym_block();
+        lr[i] = b;
+        lv.push(y);
+    }
+    let mut before = [[0i32; 4]; 4];
+    for r in 0..4 {
+        for l in 0..4 {
+            before[r][l] = m0.cost(rmap_c[r], lmap_c[l]);
+        }
+    }
+    let mut conn = DualConnector::verif_from_parts(m0, vec![rmap_c[0], rmap_c[1], rmap_c[2], rmap_c[3]], vec![lmap_c[0], lmap_c[1], lmap_c[2], lmap_c[3]], rv, lv,
+        Scorer::verif_from_parts(Vec::new(), Vec::new(), Vec::new()));
+    let m = match ConnIdMapper::from_iter([2u16, 3, 1].iter().cloned(), [3u16, 1, 2].iter().cloned()) {
+        Ok(m) => m,
+        Err(_) => unreachable!(),
+    };
+    conn.map_connection_ids(&m);
+    assert!(conn.num_left() == 4 && conn.num_right() == 4);
+    for old in 0..4 {
+        let nr = m.right(old as u16) as usize;
+        let nl = m.left(old as u16) as usize;
+        assert!(same_block(&conn.verif_right_feat_ids()[nr], &rr[old]));
+        assert!(same_block(&conn.verif_left_feat_ids()[nl], &lr[old]));
+    }
+    // matrix part through the (renumbered) classes; the raw scorer is empty, so cost = matrix part
+    for r in 0..4 {
+        for l in 0..4 {
+            let c = conn.cost(m.right(r as u16), m.left(l as u16));
+            assert!(c == before[r][l], "matrix part changed under remapping");
+        }
+    }
+    kani::cover!(rmap_c[1] == 2 && rmap_c[2] == 1 && rmap_c[3] == 2);
+    core::mem::forget(conn);
+}
+
+
 //@ c06_two_mappings_compose {"desc":"after two successive mappings every entry carries the composed ids, the connector answers cost(m2(m1 r), m2(m1 l)) = cost(r,l), and the retained mapper is the composition - the mechanism by which a user lexicon loaded later (written with original ids) is translated","bounds":"dictionary S6C (4x4 matrix, system {a,ab}, user {b}, 3 unknown entries); mappings [2,3,1]/[3,1,2] then [1,3,2]/[2,1,3]","symbolic":"all params, matrix cells","functions":["Dictionary::map_connection_ids_from_iter","Dictionary::mapper","ConnIdMapper::left","ConnIdMapper::right"],"unwind":10,"fs":2048,"timeout":1800,"mem_gb":16,"stubs":["alloc::fmt::format"]}
 #[cfg(kani)]
 #[kani::proof]
